@@ -92,6 +92,13 @@ func (zset *ZSet) Range(start int, stop int, opt ZRangeOption) []*ZSetMember {
 	if stop < 0 {
 		stop = len(zset.members) + stop
 	}
+	// Only the existing ranks have to be visited.
+	if start < 0 {
+		start = 0
+	}
+	if (len(zset.members) - 1) < stop {
+		stop = len(zset.members) - 1
+	}
 
 	mems := []*ZSetMember{}
 	for n := start; n <= stop; n++ {
@@ -108,6 +115,15 @@ func (zset *ZSet) Range(start int, stop int, opt ZRangeOption) []*ZSetMember {
 	count := opt.Count
 	if count < 0 {
 		count = len(mems)
+	}
+	// Turns the count into the end index of the selected members.
+	if len(mems) < offset {
+		offset = len(mems)
+	}
+	if (len(mems) - offset) < count {
+		count = len(mems)
+	} else {
+		count += offset
 	}
 
 	if !opt.REV {
@@ -136,6 +152,15 @@ func (zset *ZSet) RangeByScore(min float64, max float64, opt ZRangeOption) []*ZS
 	count := opt.Count
 	if count < 0 {
 		count = len(mems)
+	}
+	// Turns the count into the end index of the selected members.
+	if len(mems) < offset {
+		offset = len(mems)
+	}
+	if (len(mems) - offset) < count {
+		count = len(mems)
+	} else {
+		count += offset
 	}
 
 	if !opt.REV {
